@@ -370,7 +370,11 @@ func (c *fsCache) get(key string) ([]byte, error) {
 		return nil, err
 	}
 	if c.enc != nil {
-		data, err = c.enc.Decrypt(data)
+		if kb, ok := c.enc.(keyBoundEncryptor); ok {
+			data, err = kb.DecryptFor(key, data)
+		} else {
+			data, err = c.enc.Decrypt(data)
+		}
 		if err != nil {
 			return nil, err
 		}
@@ -412,7 +416,11 @@ func (c *fsCache) Set(key string, entry []byte) error {
 func (c *fsCache) set(key string, entry []byte) error {
 	if c.enc != nil {
 		var err error
-		entry, err = c.enc.Encrypt(entry)
+		if kb, ok := c.enc.(keyBoundEncryptor); ok {
+			entry, err = kb.EncryptFor(key, entry)
+		} else {
+			entry, err = c.enc.Encrypt(entry)
+		}
 		if err != nil {
 			return err
 		}
